@@ -27,11 +27,11 @@ pub open spec fn gr_wf(g: Gr) -> bool {
 pub open spec fn key_is(g: Gr, k: Set<StateID>, a: int) -> bool { forall|x: StateID| #[trigger] k.contains(x) <==> (g.reach)(a, x.0 as int) }
 /// some member of closure(a) has the transition (cc, t)
 #[verifier::opaque]
-pub open spec fn fires(g: Gr, a: int, cc: CharClassID, t: StateID) -> bool { exists|s: int| (g.reach)(a, s) && #[trigger] (g.tr)(s, cc, t) }
+pub open spec fn g_fires(g: Gr, a: int, cc: CharClassID, t: StateID) -> bool { exists|s: int| (g.reach)(a, s) && #[trigger] (g.tr)(s, cc, t) }
 /// automaton state `to` stands for the closure of the target of a transition (cc, t) fired from automaton state f
 pub open spec fn elim_edge(g: Gr, reps: Seq<StateID>, f: int, cc: CharClassID, to: StateSetID) -> bool {
     0 <= f < reps.len() && to.0 < reps.len()
-        && exists|t: StateID| #[trigger] fires(g, reps[f].0 as int, cc, t) && same_closure(g, t.0 as int, reps[to.0 as int].0 as int)
+        && exists|t: StateID| #[trigger] g_fires(g, reps[f].0 as int, cc, t) && same_closure(g, t.0 as int, reps[to.0 as int].0 as int)
 }
 /// reps[i]: a state whose closure automaton state i stands for; distinct automaton states stand for distinct closures
 pub open spec fn reps_ok(g: Gr, reps: Seq<StateID>) -> bool {
@@ -64,7 +64,7 @@ pub open spec fn edge_present(g: Gr, t: Set<Edge>, reps: Seq<StateID>, f: int, c
 }
 #[verifier::opaque]
 pub open spec fn trans_complete(g: Gr, t: Set<Edge>, reps: Seq<StateID>, p: int) -> bool {
-    forall|f: int, cc: CharClassID, tg: StateID| 0 <= f < p && f < reps.len() && #[trigger] fires(g, reps[f].0 as int, cc, tg) ==> edge_present(g, t, reps, f, cc, tg)
+    forall|f: int, cc: CharClassID, tg: StateID| 0 <= f < p && f < reps.len() && #[trigger] g_fires(g, reps[f].0 as int, cc, tg) ==> edge_present(g, t, reps, f, cc, tg)
 }
 pub open spec fn entered(t: Set<Edge>, to: StateSetID) -> bool { exists|f: StateSetID, cc: CharClassID| #[trigger] t.contains((f, cc, to)) }
 #[verifier::opaque]
@@ -91,7 +91,7 @@ pub open spec fn elim_ok(g: Gr, d: CompiledDfa, reps: Seq<StateID>) -> bool {
     &&& forall|f: int, cc: CharClassID, to: StateSetID| 0 <= f < reps.len() ==> (#[trigger] d.states@[f].transitions@.contains((cc, to)) <==> elim_edge(g, reps, f, cc, to))
     &&& forall|f: int| 0 <= f < reps.len() ==> (#[trigger] d.states@[f]).transitions@.no_duplicates()
     // every closure a state can move to has its own state
-    &&& forall|f: int, cc: CharClassID, tg: StateID| 0 <= f < reps.len() && #[trigger] fires(g, reps[f].0 as int, cc, tg) ==> has_rep(g, reps, tg)
+    &&& forall|f: int, cc: CharClassID, tg: StateID| 0 <= f < reps.len() && #[trigger] g_fires(g, reps[f].0 as int, cc, tg) ==> has_rep(g, reps, tg)
     &&& forall|i: int| 0 <= i < reps.len() ==> #[trigger] d.end_states@[i] == elim_end(g, d, reps, i)
     &&& d.lookaheads@.len() == 0
 }
@@ -150,10 +150,10 @@ pub proof fn lemma_reps_nodup(g: Gr, reps: Seq<StateID>)
 }
 /// a fired transition's target is a state
 pub proof fn lemma_fires_target(g: Gr, a: int, cc: CharClassID, t: StateID)
-    requires gr_wf(g), (g.ok)(a), fires(g, a, cc, t)
+    requires gr_wf(g), (g.ok)(a), g_fires(g, a, cc, t)
     ensures (g.ok)(t.0 as int)
 {
-    reveal(fires);
+    reveal(g_fires);
     let s = choose|s: int| (g.reach)(a, s) && #[trigger] (g.tr)(s, cc, t);
     assert((g.ok)(s));
 }
@@ -216,15 +216,15 @@ pub proof fn lemma_push_mono(g: Gr, t: Set<Edge>, acc: Seq<(StateSetID, usize)>,
     reveal(trans_sound); reveal(trans_complete); reveal(acc_ok);
     let r2 = reps.push(x);
     assert forall|f: int, cc: CharClassID, to: StateSetID| #[trigger] elim_edge(g, reps, f, cc, to) implies elim_edge(g, r2, f, cc, to) by {
-        let tg = choose|tg: StateID| #[trigger] fires(g, reps[f].0 as int, cc, tg) && same_closure(g, tg.0 as int, reps[to.0 as int].0 as int);
+        let tg = choose|tg: StateID| #[trigger] g_fires(g, reps[f].0 as int, cc, tg) && same_closure(g, tg.0 as int, reps[to.0 as int].0 as int);
         assert(r2[f] == reps[f] && r2[to.0 as int] == reps[to.0 as int]);
-        assert(fires(g, r2[f].0 as int, cc, tg) && same_closure(g, tg.0 as int, r2[to.0 as int].0 as int));
+        assert(g_fires(g, r2[f].0 as int, cc, tg) && same_closure(g, tg.0 as int, r2[to.0 as int].0 as int));
     }
     assert forall|f: int, cc: CharClassID, tg: StateID| #[trigger] edge_present(g, t, reps, f, cc, tg) implies edge_present(g, t, r2, f, cc, tg) by {
         let to = choose|to: StateSetID| to.0 < reps.len() && same_closure(g, tg.0 as int, reps[to.0 as int].0 as int) && #[trigger] t.contains((StateSetID(f as u32), cc, to));
         assert(r2[to.0 as int] == reps[to.0 as int]);
     }
-    assert forall|f: int, cc: CharClassID, tg: StateID| 0 <= f < p && f < r2.len() && #[trigger] fires(g, r2[f].0 as int, cc, tg) implies edge_present(g, t, r2, f, cc, tg) by {
+    assert forall|f: int, cc: CharClassID, tg: StateID| 0 <= f < p && f < r2.len() && #[trigger] g_fires(g, r2[f].0 as int, cc, tg) implies edge_present(g, t, r2, f, cc, tg) by {
         if f < reps.len() { assert(r2[f] == reps[f]); assert(edge_present(g, t, reps, f, cc, tg)); }
     }
     assert(acc_ok(g, acc, t, r2)) by {
@@ -242,7 +242,7 @@ pub proof fn lemma_push_mono(g: Gr, t: Set<Edge>, acc: Seq<(StateSetID, usize)>,
 pub proof fn lemma_insert_edge(g: Gr, t: Set<Edge>, reps: Seq<StateID>, c: int, cc: CharClassID, tg: StateID, id: StateSetID, p: int)
     requires
         trans_sound(g, t, reps, c + 1), trans_complete(g, t, reps, p), 0 <= c < reps.len(), reps.len() <= u32::MAX, id.0 < reps.len(),
-        fires(g, reps[c].0 as int, cc, tg), same_closure(g, tg.0 as int, reps[id.0 as int].0 as int),
+        g_fires(g, reps[c].0 as int, cc, tg), same_closure(g, tg.0 as int, reps[id.0 as int].0 as int),
     ensures
         trans_sound(g, t.insert((StateSetID(c as u32), cc, id)), reps, c + 1),
         trans_complete(g, t.insert((StateSetID(c as u32), cc, id)), reps, p),
@@ -259,7 +259,7 @@ pub proof fn lemma_insert_edge(g: Gr, t: Set<Edge>, reps: Seq<StateID>, c: int, 
     }
     assert(t2.contains(e0));
     assert(edge_present(g, t2, reps, c, cc, tg));
-    assert forall|f: int, cc2: CharClassID, tg2: StateID| 0 <= f < p && f < reps.len() && #[trigger] fires(g, reps[f].0 as int, cc2, tg2) implies edge_present(g, t2, reps, f, cc2, tg2) by {
+    assert forall|f: int, cc2: CharClassID, tg2: StateID| 0 <= f < p && f < reps.len() && #[trigger] g_fires(g, reps[f].0 as int, cc2, tg2) implies edge_present(g, t2, reps, f, cc2, tg2) by {
         assert(edge_present(g, t, reps, f, cc2, tg2));
     }
 }
@@ -326,7 +326,7 @@ pub proof fn lemma_elim_final(g: Gr, d: CompiledDfa, reps: Seq<StateID>, t: Set<
     assert forall|f: int, cc: CharClassID, to: StateSetID| 0 <= f < reps.len() implies (#[trigger] d.states@[f].transitions@.contains((cc, to)) <==> elim_edge(g, reps, f, cc, to)) by {
         if t.contains((StateSetID(f as u32), cc, to)) { assert(elim_edge(g, reps, f, cc, to)); }
         if elim_edge(g, reps, f, cc, to) {
-            let tg = choose|tg: StateID| #[trigger] fires(g, reps[f].0 as int, cc, tg) && same_closure(g, tg.0 as int, reps[to.0 as int].0 as int);
+            let tg = choose|tg: StateID| #[trigger] g_fires(g, reps[f].0 as int, cc, tg) && same_closure(g, tg.0 as int, reps[to.0 as int].0 as int);
             assert(edge_present(g, t, reps, f, cc, tg));
             let to2 = choose|to2: StateSetID| to2.0 < reps.len() && same_closure(g, tg.0 as int, reps[to2.0 as int].0 as int) && #[trigger] t.contains((StateSetID(f as u32), cc, to2));
             lemma_same_closure_trans(g, tg.0 as int, reps[to.0 as int].0 as int, reps[to2.0 as int].0 as int);
@@ -335,7 +335,7 @@ pub proof fn lemma_elim_final(g: Gr, d: CompiledDfa, reps: Seq<StateID>, t: Set<
             assert(to == to2);
         }
     }
-    assert forall|f: int, cc: CharClassID, tg: StateID| 0 <= f < reps.len() && #[trigger] fires(g, reps[f].0 as int, cc, tg) implies has_rep(g, reps, tg) by {
+    assert forall|f: int, cc: CharClassID, tg: StateID| 0 <= f < reps.len() && #[trigger] g_fires(g, reps[f].0 as int, cc, tg) implies has_rep(g, reps, tg) by {
         assert(edge_present(g, t, reps, f, cc, tg));
         let to = choose|to: StateSetID| to.0 < reps.len() && same_closure(g, tg.0 as int, reps[to.0 as int].0 as int) && #[trigger] t.contains((StateSetID(f as u32), cc, to));
         assert(same_closure(g, tg.0 as int, reps[to.0 as int].0 as int));
@@ -423,12 +423,12 @@ pub proof fn lemma_acc_use(g: Gr, acc: Seq<(StateSetID, usize)>, t: Set<Edge>, r
 pub proof fn lemma_complete_step(g: Gr, t: Set<Edge>, reps: Seq<StateID>, c: int, ts: Seq<(CharClassID, StateID)>)
     requires
         trans_complete(g, t, reps, c), 0 <= c < reps.len(),
-        forall|cc: CharClassID, tg: StateID| #[trigger] ts.contains((cc, tg)) <==> fires(g, reps[c].0 as int, cc, tg),
+        forall|cc: CharClassID, tg: StateID| #[trigger] ts.contains((cc, tg)) <==> g_fires(g, reps[c].0 as int, cc, tg),
         forall|kk: int| 0 <= kk < ts.len() ==> edge_present(g, t, reps, c, (#[trigger] ts[kk]).0, ts[kk].1),
     ensures trans_complete(g, t, reps, c + 1)
 {
     reveal(trans_complete);
-    assert forall|f: int, cc: CharClassID, tg: StateID| 0 <= f < c + 1 && f < reps.len() && #[trigger] fires(g, reps[f].0 as int, cc, tg) implies edge_present(g, t, reps, f, cc, tg) by {
+    assert forall|f: int, cc: CharClassID, tg: StateID| 0 <= f < c + 1 && f < reps.len() && #[trigger] g_fires(g, reps[f].0 as int, cc, tg) implies edge_present(g, t, reps, f, cc, tg) by {
         if f == c {
             assert(ts.contains((cc, tg)));
             let kk = choose|kk: int| 0 <= kk < ts.len() && ts[kk] == (cc, tg);
